@@ -28,7 +28,11 @@ var c01Templates = map[System][]string{
 }
 
 func c01FromTemplate(sys System, tag string, tid int) string {
-	t := c01Templates[sys][tid]
+	return c01FromTemplateList(c01Templates[sys][tid], tag)
+}
+
+// c01FromTemplateList instantiates one template string.
+func c01FromTemplateList(t string, tag string) string {
 	sym := vBytes(tag, len(t))
 	out := ""
 	for i := 0; i < len(t); i++ {
